@@ -169,6 +169,14 @@ theorem shapeE (call : Ctx) : (e : Expr) → ∀ (benv : BEnv) (t : VTy) (bs : L
           simp only [Option.some.injEq, Prod.mk.injEq] at h; obtain ⟨_, _, _, rfl⟩ := h
           exact shapeE call a _ _ _ _ _ ha
         · simp at h
+      case int k =>
+        split at h
+        · rename_i k' bs' p1 env1 ha
+          split at h
+          · simp only [Option.some.injEq, Prod.mk.injEq] at h; obtain ⟨_, _, _, rfl⟩ := h
+            exact shapeE call a _ _ _ _ _ ha
+          · simp at h
+        · simp at h
       all_goals (simp at h)
     | neg =>
       cases ty <;> simp only [bitExpr] at h
